@@ -70,8 +70,23 @@ def minmax_fold(ev, ctor, t):
                     (("pvar", "Option::None"), ("set", ("var", "?m"), ("Some", ("ev", ("var", "?x"))))))
             f = M(("seq", ("let", "?m", ("None",)), ("for", ("bind", "?x"), ITER, body), ("Ok", ("call", "Option::unwrap", ("var", "?m")))), fold)
             if f is not None:
-                ok = f["?cmp"] in ((op, op + "e") if False else (op, "le" if op == "lt" else "ge")) and okS
-                detail = "keeps the accumulator when acc %s x on the operands' double values (needs %s)" % (f["?cmp"], op)
+                # (the shape of the pinned tree) two Integers compared through their doubles: above 2^53 distinct integers share a double,
+                # and the fold then keeps the wrong one -- min(2^53, 2^53+1) = 2^53+1
+                ok = False
+                detail = "compares two Integers through their double values (acc %s x): not the minimum/maximum of the integers above 2^53" % f["?cmp"]
+            # Integer with Integer: exact i64 comparison; any Float involved: comparison of the double values
+            FCMP = ("op", "?cmp", "f64", as_f64(("var", "?l"), "1"), as_f64(("ev", ("var", "?x")), "2"))
+            ICMP = ("|", ("call", "?icmp", ("var", "?a"), ("var", "?b")), ("op", "?iop", "i64", ("var", "?a"), ("var", "?b")))
+            cond2 = ("match", ("tuple", ("var", "?l"), ("ev", ("var", "?x"))), (("pleaf", ("pvar", "Number::Integer", ("bind", "?a")), ("pvar", "Number::Integer", ("bind", "?b"))), ICMP), ("_", FCMP))
+            body2 = ("match", ("var", "?m"),
+                     (("pvar", "Option::Some", ("bind", "?l")), ("if", cond2, ("set", ("var", "?m"), ("Some", ("var", "?l"))), ("set", ("var", "?m"), ("Some", ("ev", ("var", "?x")))))),
+                     (("pvar", "Option::None"), ("set", ("var", "?m"), ("Some", ("ev", ("var", "?x"))))))
+            f2 = M(("seq", ("let", "?m", ("None",)), ("for", ("bind", "?x"), ITER, body2), ("Ok", ("call", "Option::unwrap", ("var", "?m")))), fold)
+            if f2 is not None:
+                want_f = (op, "le" if op == "lt" else "ge")
+                icmp = f2.get("?iop") or str(f2.get("?icmp", "")).split("::")[-1]
+                ok = f2["?cmp"] in want_f and icmp in want_f and okS
+                detail = "keeps the accumulator when acc %s x: Integers compared exactly (%s), otherwise on the double values (needs %s)" % (f2["?cmp"], icmp, op)
     return ok, detail
 
 
